@@ -26,6 +26,9 @@ var Types = []string{"text/html", "text/css", "application/javascript", "applica
 
 // Small documents that minify without error.
 var Valid = []Doc{
+	// a style type of the length of "text/css" on the root, and a plain document with a style sheet and a style attribute
+	{Type: "image/svg+xml", Text: `<svg xmlns="http://www.w3.org/2000/svg" contentStyleType="text/xsl"><style>a { fill : red }</style></svg>`},
+	{Type: "image/svg+xml", Text: `<svg xmlns="http://www.w3.org/2000/svg"><style>a { fill : #ff0000 }</style><path style="fill : #ff0000" d="M0 0z"/></svg>`},
 	{"text/html", "<!doctype html><html><head><title> a  b </title></head><body><p>one  two</p> <p>three</p></body></html>"},
 	{"text/html", "<p>a <b>b</b>  c</p><ul><li>x</li><li>y</li></ul>"},
 	{"text/html", "<div style=\"color: red; margin: 0px\" onclick=\"a ( ) ;\">x</div><style>a { color : #ff0000 }</style><script>var a = 1 ; f ( a )</script>"},
